@@ -161,4 +161,83 @@ theorem firstOcc_of_nodup (is : List Import) (h : (is.map Import.key).Nodup) : f
     have : j.key ≠ x.key := fun e => h.1 (e ▸ List.mem_map_of_mem hj)
     simpa using this
 
+/-! ### the de-duplication key `Path.Value + Name.Name` determines the (name, path) pair -/
+
+/-- an import spec as go/parser delivers it: the path is a quoted literal (ends with `"`), the local name is an
+    identifier (contains no `"`) -/
+def Import.quoted (i : Import) : Prop := i.path.toList.getLast? = some '"' ∧ '"' ∉ i.name.toList
+
+theorem split_at_quote {q : Char} : ∀ (xs ys r s : List Char), q ∉ xs → q ∉ ys → xs ++ q :: r = ys ++ q :: s → xs = ys ∧ r = s := by
+  intro xs
+  induction xs with
+  | nil =>
+    intro ys r s _ hy h
+    cases ys with
+    | nil => simp at h; exact ⟨rfl, h⟩
+    | cons y ys =>
+      simp only [List.nil_append, List.cons_append, List.cons.injEq] at h
+      exact absurd (h.1 ▸ List.mem_cons_self ..) hy
+  | cons x xs ih =>
+    intro ys r s hx hy h
+    cases ys with
+    | nil =>
+      simp only [List.nil_append, List.cons_append, List.cons.injEq] at h
+      exact absurd (h.1 ▸ List.mem_cons_self ..) hx
+    | cons y ys =>
+      simp only [List.cons_append, List.cons.injEq] at h
+      have := ih ys r s (fun m => hx (List.mem_cons_of_mem _ m)) (fun m => hy (List.mem_cons_of_mem _ m)) h.2
+      exact ⟨by rw [h.1, this.1], this.2⟩
+
+theorem key_inj {a b : Import} (ha : a.quoted) (hb : b.quoted) (h : a.key = b.key) : a = b := by
+  have hl := congrArg String.toList h
+  simp only [Import.key, String.toList_append] at hl
+  have hr := congrArg List.reverse hl
+  simp only [List.reverse_append] at hr
+  -- the reversed paths start with the closing quote
+  obtain ⟨pa, hpa⟩ : ∃ pa, a.path.toList.reverse = '"' :: pa := by
+    have := ha.1
+    cases hrev : a.path.toList.reverse with
+    | nil => simp [List.getLast?_eq_head?_reverse, hrev] at this
+    | cons c cs =>
+      rw [List.getLast?_eq_head?_reverse, hrev] at this
+      simp only [List.head?_cons, Option.some.injEq] at this
+      exact ⟨cs, by rw [this]⟩
+  obtain ⟨pb, hpb⟩ : ∃ pb, b.path.toList.reverse = '"' :: pb := by
+    have := hb.1
+    cases hrev : b.path.toList.reverse with
+    | nil => simp [List.getLast?_eq_head?_reverse, hrev] at this
+    | cons c cs =>
+      rw [List.getLast?_eq_head?_reverse, hrev] at this
+      simp only [List.head?_cons, Option.some.injEq] at this
+      exact ⟨cs, by rw [this]⟩
+  rw [hpa, hpb] at hr
+  have hs := split_at_quote _ _ _ _ (by simpa using ha.2) (by simpa using hb.2) hr
+  have hn : a.name = b.name := String.toList_inj.mp (List.reverse_inj.mp hs.1)
+  have hp : a.path = b.path := by
+    apply String.toList_inj.mp
+    apply List.reverse_inj.mp
+    rw [hpa, hpb, hs.2]
+  cases a; cases b; simp_all
+
+/-- with parser-shaped import specs the merged import list holds exactly the (name, path) pairs that occur in the files -/
+theorem firstOcc_mem_iff (is : List Import) (hq : ∀ i ∈ is, i.quoted) (i : Import) : i ∈ firstOcc is ↔ i ∈ is := by
+  constructor
+  · exact firstOcc_sub is i
+  · intro hi
+    have : i.key ∈ (firstOcc is).map Import.key := (firstOcc_keys is i.key).mpr (List.mem_map_of_mem hi)
+    obtain ⟨j, hj, hk⟩ := List.mem_map.mp this
+    have hjq := hq j (firstOcc_sub is j hj)
+    rw [← key_inj hjq (hq i hi) hk]
+    exact hj
+
+theorem nodup_of_nodup_map {α β : Type} (f : α → β) : ∀ (l : List α), (l.map f).Nodup → l.Nodup := by
+  intro l
+  induction l with
+  | nil => intro _; exact List.nodup_nil
+  | cons a l ih =>
+    intro h
+    simp only [List.map_cons, List.nodup_cons] at h
+    rw [List.nodup_cons]
+    exact ⟨fun hm => h.1 (List.mem_map_of_mem hm), ih h.2⟩
+
 end ShootVerif.Merge
